@@ -603,18 +603,21 @@ func c05CheckHist(c c05Case, rec *evid.Recorder) *Fail {
 
 func c05GenHist(r gen.R, rec *evid.Recorder) c05Case {
 	var h []c05Step
-	names := []string{"w0", "w1", "w2", "w3"}
+	// names: plain words, every reserved word of the subset, names that look like
+	// built-in token types or lexemes, the empty name, non-ASCII
+	names := []string{"w0", "w1", "w2", "w3", "function", "let", "if", "else", "while", "for", "return", "true", "false", "null",
+		"typeof", "await", "", "IDENT", "EOF", "ILLEGAL", "PLUS", "+", "==", "(", "w0 ", "W0", "é"}
 	built := []string{"+", "-", "*", "!", "++", "--", "==", "=", "(", "[", ".", "ident", "{", "function", ",", ":", "&&"}
 	for i, n := 0, 2+r.Intn(28, "nsteps"); i < n; i++ {
 		switch r.Pick("hop", 3, 3, 4, 3) {
 		case 0:
-			h = append(h, c05Step{Op: "type", Name: names[r.Intn(len(names), "name")]})
+			h = append(h, c05Step{Op: "type", Name: names[r.Pick("name", 6, 6, 6, 6, 2, 2, 2, 2, 2, 2, 2, 2, 2, 2, 2, 2, 2, 2, 2, 2, 2, 2, 2, 2, 2, 2, 2)]})
 		default:
 			st := c05Step{Op: []string{"prefix", "infix", "postfix"}[r.Intn(3, "role")], Level: 2 + r.Intn(12, "level")}
 			if r.Intn(3, "builtin") == 0 {
 				st.Built = built[r.Intn(len(built), "built")]
 			} else {
-				st.Name = names[r.Intn(len(names), "name")]
+				st.Name = names[r.Pick("name", 6, 6, 6, 6, 2, 2, 2, 2, 2, 2, 2, 2, 2, 2, 2, 2, 2, 2, 2, 2, 2, 2, 2, 2, 2, 2, 2)]
 			}
 			h = append(h, st)
 		}
